@@ -104,6 +104,49 @@ def _root_live(E: Engine, c: Callable_, root: str, callers: dict, seen: set) -> 
     return False
 
 
+def _single_site_helper(E: Engine, e: Event, callers: dict):
+    """The private helper a call event denotes, when this is its only call site in the analysed program."""
+    if e.kind != "call" or len(e.callees) != 1:
+        return None
+    cal, _mode = e.callees[0]
+    f = cal.fn
+    if cal.binding or f.decorators or not f.name.startswith("_") or f.name.startswith("__"):
+        return None
+    sites = callers.get(cal.key, [])
+    if len(sites) != 1:
+        return None
+    return cal
+
+
+def _split(E: Engine, e: Event, writes, raises, callers: dict, depth: int = 0) -> list:
+    """[(event description, effect subset)]: a call to a single-site private helper is described by the helper's
+    own events that carry (part of) the effect; anything else by itself."""
+    cal = _single_site_helper(E, e, callers) if depth < 3 else None
+    want = writes if writes is not None else raises
+    if cal is None:
+        return [(event_desc(e), want)]
+    fl = E.flow(cal)
+    out = []
+    covered: set = set()
+    for node, _i, ie in fl.all_events():
+        w, r = E.S.event_effects(fl, node, ie)
+        if writes is not None:
+            part = {(y.owner, y.field) for y in E.state_writes(w)} & writes
+        else:
+            part = {(x.fn, x.exc) for x in r} & raises
+        if part:
+            covered |= part
+            out += _split(E, ie, part if writes is not None else None, part if raises is not None else None, callers, depth + 1)
+    rest = want - covered
+    if rest or not out:
+        out.append((event_desc(e), rest or want))
+    # merge duplicates
+    merged: dict = {}
+    for dsc, part in out:
+        merged.setdefault(dsc, set()).update(part)
+    return list(merged.items())
+
+
 def order_pairs(E: Engine, callables: list[Callable_]) -> "OrderedDict[tuple[str, str, str], dict]":
     callers = _callers_index(E, callables)
     pairs: "OrderedDict[tuple[str, str, str], dict]" = OrderedDict()
@@ -144,10 +187,14 @@ def order_pairs(E: Engine, callables: list[Callable_]) -> "OrderedDict[tuple[str
                     continue
                 if _caller_compensated(E, c, {(y.owner, y.field) for y in wa}, {(x.fn, x.exc) for x in live_raises}, callers):
                     continue
-                key = (c.fn.short, event_desc(ea), event_desc(eb))
-                d = pairs.setdefault(key, {"callable": c, "first": ea, "later": eb, "writes": set(), "raises": set(), "where": E.where(c.fn, eb.node)})
-                d["writes"] |= {(y.owner.split(".")[-1], y.field) for y in wa}
-                d["raises"] |= {(x.fn, x.exc) for x in live_raises}
+                # a private helper with a single call site is part of its caller: the pair is named after the
+                # helper's own events (extracting / inlining such a helper must not create a "new" pair)
+                for da, wa_ in _split(E, ea, {(y.owner, y.field) for y in wa}, None, callers):
+                    for db, rb_ in _split(E, eb, None, {(x.fn, x.exc) for x in live_raises}, callers):
+                        key = (c.fn.short, da, db)
+                        d = pairs.setdefault(key, {"callable": c, "first": ea, "later": eb, "writes": set(), "raises": set(), "where": E.where(c.fn, eb.node)})
+                        d["writes"] |= {(o.split(".")[-1], f) for o, f in wa_}
+                        d["raises"] |= set(rb_)
     return pairs
 
 
